@@ -6,21 +6,21 @@ TRAITS = "generic solve loop: the contracts on the core traits are assumed for a
 
 PROPS = {
     "C01": {
-        "units": ["status"],
+        "units": ["status", "postprocess"],
         "scope": "verdict layer: Solved only when the documented test holds on the reported figures",
         "assumptions": [OPAQUE],
         "trusted_base": ["prelude/float_opaque.rs (hand written)"],
         "not_covered": ["Residuals::update (gemv/symv sums)", "cone membership of the final iterate", "that the loop reaches Solved at all (C06)"],
     },
     "C02": {
-        "units": ["status"],
+        "units": ["status", "postprocess"],
         "scope": "verdict layer: *Infeasible only when the documented certificate test holds",
         "assumptions": [OPAQUE],
         "trusted_base": ["prelude/float_opaque.rs (hand written)"],
         "not_covered": ["z in K*, s in K of the certificate", "user-space certificate beyond the unscale contract"],
     },
     "C03": {
-        "units": ["status", "solve"],
+        "units": ["status", "solve", "postprocess"],
         "scope": "Almost* only from error/limit statuses under reduced tolerances; never inside the loop; status revisions only to Almost*",
         "assumptions": [OPAQUE, TRAITS, PRINT_OK],
         "trusted_base": ["prelude/float_opaque.rs", "prelude/vecmath_assumed.rs"],
@@ -76,5 +76,23 @@ PROPS = {
              "covers": ["check_format", "check_dimensions"], "timeout": 600},
         ],
         "not_covered": [],
+    },
+    "C18": {
+        "units": ["scalarmath"],
+        "scope": "narrow: the packed upper-triangle index maps used by PSD/chordal code are mutually inverse bijections (tri(col)+row), symmetric in (i,j), overflow-free for indices < 2^31 / linear indices < 2^50",
+        "assumptions": ["isqrt ((v as f64).sqrt() as usize, outside Verus) is assumed to be the exact floor square root for v < 2^53",
+                        "usize is 64 bit (global size_of usize == 8)"],
+        "trusted_base": [],
+        "not_covered": ["augmentation (standard/compact), reversal, PSD completion (IndexSet / BLAS, sdp feature not in the default build)"],
+    },
+    "C09": {
+        "units": ["postprocess"],
+        "scope": "reduction map (exactly the rows in a nonnegative cone above the contracted threshold (1-10eps)*bound are dropped; count; None iff nothing dropped), reversal (lengths/order restored, z=0 and s=captured bound at dropped rows), post_process wiring",
+        "assumptions": [OPAQUE, "the cones partition the rows of b (checked by the constructor's dimension asserts)",
+                        "nvars of a GenPowerConeT does not overflow usize",
+                        "the code's deliberate margin: rows with b in ((1-10eps)*B, B) are dropped as well (DESIGN O4); the contract states the threshold the code documents"],
+        "trusted_base": ["prelude/float_opaque.rs", "prelude/vecmath_assumed.rs"],
+        "not_covered": ["reduce_cones / select_rows (iterator adaptors with closures: Kani bounded harnesses, thorough tier)", "capping of b in DefaultProblemData::new (scalarop closure)",
+                        "that the reduced problem's solution equals the hand-reduced one (same data => C01 on the reduced data)"],
     },
 }
